@@ -70,11 +70,14 @@ struct Model {
         }
         runs.swap(n);
     }
-    void fill(int64_t o, size_t n, char *dst) const   // expected bytes of a present range
+    void fill(int64_t o, size_t n, char *dst) const   // expected bytes of a range (run by run; '?' where nothing was written)
     {
-        for (size_t k = 0; k < n; ++k) {
+        size_t k = 0;
+        while (k < n) {
             const Run *r = find(o + (int64_t)k);
-            dst[k] = r ? (char)patternByte(o + (int64_t)k, r->salt) : '?';
+            if (!r) { dst[k++] = '?'; continue; }
+            const int64_t upto = std::min<int64_t>(r->e, o + (int64_t)n);
+            for (int64_t p = o + (int64_t)k; p < upto; ++p) dst[k++] = (char)patternByte(p, r->salt);
         }
     }
     std::string show() const
@@ -161,7 +164,7 @@ void buildOps(bool thorough)
 
 uint64_t nFreesThatRemoved = 0, nShortReads = 0, nContigTrue = 0, nContigFalse = 0, nCopies = 0, nPresence = 0;
 
-std::vector<char> IoBuf(40000), ExpBuf(40000);
+std::vector<char> IoBuf(40000), ExpBuf(40000), Guard(40000, 0x7e);
 
 // copy [off, off+len) from the real object and compare with the model; off must be present in the model
 void checkCopy(World &w, int64_t off, size_t len, Fail &f, const char *keyPrefix)
@@ -191,8 +194,8 @@ void checkCopy(World &w, int64_t off, size_t len, Fail &f, const char *keyPrefix
               std::to_string(off + (int64_t)k) + "; model " + w.m.show());
         return;
     }
-    for (size_t k = (size_t)expect; k < guard + 8; ++k)
-        if (IoBuf[k] != 0x7e) { f.set(std::string(keyPrefix) + ":overrun", "copy() wrote beyond the bytes it reported"); return; }
+    if (memcmp(IoBuf.data() + expect, Guard.data(), guard + 8 - (size_t)expect) != 0)
+        f.set(std::string(keyPrefix) + ":overrun", "copy() wrote beyond the bytes it reported");
 }
 
 void checkContig(World &w, int64_t a, int64_t b, Fail &f, const char *keyPrefix)
